@@ -62,6 +62,10 @@ def main(tier):
             # members use as their first component: nothing may be created through it
             os.makedirs(os.path.join(arena, f"s{i}", "l1", "escape"))
             os.symlink(os.path.join("..", "..", "..", "escape"), os.path.join(sb, "out", "a"))
+            # ... and one to a sibling whose name extends the output directory's own name (`out` / `out.old`): a
+            # comparison of path STRINGS instead of path components would take it for a sub-directory
+            os.makedirs(os.path.join(sb, "out.old"))
+            os.symlink(os.path.join("..", "out.old"), os.path.join(sb, "out", "b"))
         # (one member in three is an empty file: it must still be created)
         members = [dict(name=name_str(n), content="" if (i + j) % 3 == 0 else f"content-{i}-{j}-" + "z" * (j * 37))
                    for j, n in enumerate(b["names"])]
